@@ -233,3 +233,31 @@ def check_init_kernels(res, rng, n_cases):
             if a != b:
                 res.violation("rank:reseed", "init_from_neighbor_graph does not reproduce row %d: %s -> %s" % (p, a, b), case)
                 break
+
+
+def check_blocks(res, rng, n_cases):
+    """process_candidates (the low-memory local join) with a SMALL block size: several blocks, thresholds re-read per block,
+    the change count summed over the blocks - bit-exact against Model/Descent.lean `processBlocks` (the real nn_descent
+    hard-codes 16384, so whole runs only leave the first block beyond that size)"""
+    for c in range(n_cases):
+        n = int(rng.integers(4, 30)); k = int(rng.choice([2, 3, 5])); mc = int(rng.choice([2, 4, 8])); T = int(rng.choice([1, 2, 3]))
+        bs = int(rng.choice([1, 2, 3, 5, 7, n, n + 1]))
+        X = gen_int_data(rng, n, int(rng.choice([1, 2, 3])), spread=int(rng.choice([2, 5])))
+        tab = dist_table(X, pd.squared_euclidean)
+        g = random_heap(rng, n, k, tab, fill=float(rng.choice([0.5, 1.0, 1.5])))
+        state = rng.integers(-2 ** 31 + 1, 2 ** 31 - 1, 3).astype(np.int64)
+        numba.set_num_threads(T)
+        newC, oldC = utils.new_build_candidates(g, mc, state.copy(), T)
+        before = graph_tokens(g)
+        cc = int(pm.process_candidates(X, pd.squared_euclidean, g, newC, oldC, n // bs, bs, T))
+        numba.set_num_threads(numba.config.NUMBA_NUM_THREADS)
+        impl = "%d | %s" % (cc, graph_tokens(g))
+        line = "blocks %d %d %d %d %d | %s | %s | %s | %s" % (n, k, T, bs, newC.shape[1], bits_row(tab), ints_row(newC.ravel()),
+                                                               ints_row(oldC.ravel()), before)
+        model = run_driver([line])[0]
+        case = {"n": n, "k": k, "T": T, "block_size": bs, "max_candidates": mc, "X": X.tolist(), "state": state.tolist()}
+        res.case(("blocks", n, k, T, bs, X.tobytes(), state.tobytes()), nontrivial=(cc > 0 and bs < n),
+                 sample={k_: case[k_] for k_ in ("n", "k", "T", "block_size")})
+        res.count("block_cases"); res.count("block_cases_multi" if bs < n else "block_cases_single"); res.traces += 1
+        if model != impl:
+            res.corr_fail("process_candidates_blocks_bit_exact", case, model[:300], impl[:300])
